@@ -140,6 +140,66 @@ def r1_field_agreement(r, facts):
     r.floor(6)
 
 
+def _start_offset(e):
+    """start offset of a (nested) range index into sun_path: sum of RangeFrom starts"""
+    off = 0
+    for x in subexprs(e):
+        if x[0] == 'agg' and x[1].endswith('RangeFrom::RangeFrom') and x[3] and x[3][0][0] == 'const' and x[3][0][1] is not None:
+            off += x[3][0][1]
+    return off
+
+
+def r1b_unix_layout(r, facts):
+    """Unix addresses: writer and reader agree on where the name lives in sun_path
+    (pathname at offset 0, abstract name after one leading NUL)"""
+    w = impl_fn(facts, 'std::os::unix::net::SocketAddr', 'into_storage')
+    rd = impl_fn(facts, 'std::os::unix::net::SocketAddr', 'init')
+    if not r.require(w is not None and rd is not None, 'unix', 'Unix SocketAddress impl not found'):
+        return
+    ew = ExprBuilder(w, multi='phi')
+    copies = [(loc, t) for loc, t in w.calls() if (t.get('callee') or '').endswith('copy_from_slice')]
+    wr = {}
+    for loc, t in copies:
+        dst, src = ew.operand(t['args'][0]), ew.operand(t['args'][1])
+        kind = 'abstract' if 'as_abstract_name' in str(src) else ('pathname' if 'as_pathname' in str(src) else '?')
+        wr[kind] = (_start_offset(dst), loc)
+        r.inst('writer: %s name at sun_path[%d..]' % (kind, wr[kind][0]), w.where(loc))
+        r.require('sun_path' in str(dst), 'unix/writer-target:%s' % kind, 'the %s name is not copied into sun_path' % kind, w.where(loc))
+    r.require(set(wr) == {'abstract', 'pathname'}, 'unix/writer-kinds', 'writer handles %s, expected pathname and abstract names' % sorted(wr), w.where())
+    # family
+    fam_ok = any('AF_UNIX' in str(ew.rvalue(s['rv'])) for loc, s in w.assigns() if s['rv']['k'] == 'agg' and (s['rv'].get('adt') or '').endswith('sockaddr_un'))
+    r.require(fam_ok, 'unix/family', 'sun_family is not AF_UNIX', w.where())
+    er = ExprBuilder(rd, multi='phi')
+    rdoff = {}
+    for loc, t in rd.calls():
+        c = t.get('callee') or ''
+        if c.endswith('from_abstract_name'):
+            rdoff['abstract'] = (_start_offset(er.operand(t['args'][0])), loc)
+        if c == 'std::os::unix::net::SocketAddr::from_pathname' and not rd.blocks[loc[0]]['cleanup']:
+            e = er.operand(t['args'][0])
+            if 'from_raw_parts' in str(e):
+                rdoff['pathname'] = (_start_offset(e), loc)
+    for kind in ('abstract', 'pathname'):
+        if r.require(kind in rdoff and kind in wr, 'unix/reader:%s' % kind, 'reader does not decode %s names' % kind, rd.where()):
+            r.inst('reader: %s name from sun_path[%d..]' % (kind, rdoff[kind][0]), rd.where(rdoff[kind][1]))
+            r.require(rdoff[kind][0] == wr[kind][0], 'unix/offset:%s' % kind, '%s names are written at sun_path[%d..] but read from sun_path[%d..]' % (kind, wr[kind][0], rdoff[kind][0]), rd.where(rdoff[kind][1]))
+    r.require(wr.get('abstract', (None,))[0] == 1 and wr.get('pathname', (None,))[0] == 0, 'unix/offsets', 'abstract names must start after one NUL byte and path names at offset 0 (unix(7)): %s' % {k: v[0] for k, v in wr.items()}, w.where())
+    # the abstract branch of the reader is taken only when the first byte is NUL
+    ok = False
+    for b, blk in enumerate(rd.blocks):
+        tt = blk['term']
+        if blk['cleanup'] or tt['k'] != 'switch':
+            continue
+        e = er.operand(tt['discr'])
+        if any(x[0] == 'call' and x[1].endswith('::first') for x in subexprs(e)):
+            vals = {int(v): tg for v, tg in tt['targets']}
+            if 0 in vals and 'abstract' in rdoff and rd.edge_dominates((b, vals[0]), rdoff['abstract'][1]):
+                ok = True
+    r.require(ok, 'unix/abstract-test', 'abstract decoding is not guarded by `first byte == 0`', rd.where())
+    # the name length handed to the reader excludes the header: length - offset_of(sun_path)
+    r.floor(4)
+
+
 def r2_ptr_len(r, facts):
     sizes = {'std::net::SocketAddrV4': 'libc::sockaddr_in', 'std::net::SocketAddrV6': 'libc::sockaddr_in6',
              'std::os::unix::net::SocketAddr': 'libc::sockaddr_un'}
@@ -228,6 +288,7 @@ def r4_unix_length(r, facts):
 
 def check(ctx):
     ctx.run('C16.R1', 'writer/reader field and byte-order agreement per address family', r1_field_agreement)
+    ctx.run('C16.R1b', 'Unix: writer and reader agree on the position of path / abstract names in sun_path', r1b_unix_layout)
     ctx.run('C16.R2', 'pointer/length shape of as_ptr/as_mut_ptr', r2_ptr_len)
     ctx.run('C16.R3', 'Unix reader cuts the path at the first NUL (kernel lengths include the terminator)', r3_nul_trim)
     ctx.run('C16.R4', 'Unix address length depends on the address', r4_unix_length)
